@@ -127,7 +127,7 @@ def _unescaped_flows(t) -> list:
                     go(y, escaped, via)
             return
         k = x[0]
-        if k == "app" and x[1] == ("global", "builtins.repr"):
+        if k == "app" and x[1] in (("global", "builtins.repr"), ("global", "builtins.str.__repr__")):
             return  # escaped
         if k == "ifexp" and len(x) == 4:
             # (a if cond else b): the condition chooses, it does not reach the text
@@ -150,7 +150,7 @@ def _unescaped_flows(t) -> list:
             for y in x[2]:
                 go(y, False, f".{x[1][2]}()")
             return
-        if k == "app" and x[1][0] == "global" and x[1][1] not in ("builtins.str", "builtins.repr"):
+        if k == "app" and x[1][0] == "global" and x[1][1] not in ("builtins.str", "builtins.repr", "builtins.str.__repr__"):
             if any(root_of(a)[0] == "param" for a in x[2] if isinstance(a, tuple) and a):
                 out.append(f"value passed through {show(x[1])}() (not Python literal escaping)")
                 return
@@ -165,8 +165,13 @@ def _unescaped_flows(t) -> list:
     return out
 
 
+STR_REPR = ("global", "builtins.str.__repr__")
+
+
 def _check_as_ast(run: Run, fa, fi: FuncInfo, call: ast.Call, t) -> None:
-    """as_ast(p): str values must be rendered with repr; everything else with str() (repr of elements)."""
+    """as_ast(p): a str value is rendered with str.__repr__ (the text of the string, whatever class it is); the standard
+    containers are built from their items (str() of a container renders items with *their* repr); everything else
+    with str()."""
     p = ("param", fi.pos_params[0])
     alts = set()
     inner = t
@@ -174,18 +179,77 @@ def _check_as_ast(run: Run, fa, fi: FuncInfo, call: ast.Call, t) -> None:
         inner = inner[2][0]
     for a in unphi_terms(inner):
         alts.add(a)
-    ok_alts = alts <= {p, ("app", ("global", "builtins.repr"), (p,), ())} and ("app", ("global", "builtins.repr"), (p,), ()) in alts
+    esc = ("app", STR_REPR, (p,), ())
+    via_repr = ("app", ("global", "builtins.repr"), (p,), ())
     bad = _unescaped_flows(t)
-    run.check(ok_alts and not bad, "C13.R1", fi, stmt_of(call), "as_ast renders strings with repr() and other values with str()", f"as_ast builds the text to parse as {show(t)[:200]}: " + ("; ".join(bad) if bad else "a string value is not rendered with repr()") + " - quotes, backslashes, newlines or non-BMP characters are altered or parsed as code", "if isinstance(p, str): p = repr(p); ast.parse(str(p))", show(t)[:300])
-    # the repr branch must be taken exactly for str
+    if via_repr in alts and alts <= {p, via_repr} and not bad:
+        run.fail("C13.R1", fi, stmt_of(call), "as_ast renders a str value with repr(), which asks the value's own class: a str subclass with a __repr__ of its own - every member of a `class Col(str, Enum)` - is rendered as <Col.PT: 'jet_pt'> or Tagged('x'), text that does not parse or parses as code instead of the string", "str.__repr__(p_var)", show(t)[:300], key="str subclass rendered with its own repr")
+    else:
+        ok_alts = alts <= {p, esc} and esc in alts
+        run.check(ok_alts and not bad, "C13.R1", fi, stmt_of(call), "as_ast renders strings with str.__repr__() and other values with str()", f"as_ast builds the text to parse as {show(t)[:200]}: " + ("; ".join(bad) if bad else "a string value is not rendered with str.__repr__()") + " - quotes, backslashes, newlines or non-BMP characters are altered or parsed as code", "if isinstance(p, str): p = str.__repr__(p); ast.parse(str(p))", show(t)[:300])
+    # the escaping branch must be taken exactly for str
     for n in own_nodes(fi):
-        if isinstance(n, ast.Assign) and isinstance(n.value, ast.Call) and isinstance(n.value.func, ast.Name) and n.value.func.id == "repr":
+        if isinstance(n, ast.Assign) and isinstance(n.value, ast.Call) and fa.cfg.has_node(n.value) and strip_sites(fa.term_of(n.value.func)) in (STR_REPR, ("global", "builtins.repr")):
             fx = Facts(fa, n)
-            run.check(fx.isinstance_of(p, {"builtins.str", "str"}), "C13.R1", fi, n, "repr applied under isinstance(p, str)", "the escaping branch is not the isinstance(p, str) branch")
-    # result is the expression inside the parsed module
+            run.check(fx.isinstance_of(p, {"builtins.str", "str"}), "C13.R1", fi, n, "escaping applied under isinstance(p, str)", "the escaping branch is not the isinstance(p, str) branch")
+    # the text route is not taken for the standard containers: str(container) renders the items with their own repr
+    excluded = set()
+    # (facts about the parameter end where it is re-bound to its escaped text: they are read at every statement on the
+    # way to the sink, i.e. that dominates it)
+    sink_n = fa.cfg.node_of(call)
+    atoms_on_the_way = list(Facts(fa, call).atoms)
+    for st_ in own_nodes(fi):
+        if isinstance(st_, ast.stmt) and fa.cfg.has_node(st_) and fa.cfg.dominates(fa.cfg.node_of(st_), sink_n):
+            atoms_on_the_way += Facts(fa, st_).atoms
+    for a, pol in atoms_on_the_way:
+        if pol:
+            continue
+        got = None
+        if isinstance(a, ast.Compare) and len(a.ops) == 1 and isinstance(a.left, ast.Call) and isinstance(a.left.func, ast.Name) and a.left.func.id == "type" and len(a.left.args) == 1 and fa.cfg.has_node(a.left.args[0]) and strip_sites(fa.term_of(a.left.args[0])) == p:
+            c0 = a.comparators[0]
+            if isinstance(a.ops[0], ast.In) and isinstance(c0, (ast.Tuple, ast.List, ast.Set)):
+                got = [ast.unparse(e_) for e_ in c0.elts]
+            elif isinstance(a.ops[0], (ast.Is, ast.Eq)):
+                got = [ast.unparse(c0)]
+        elif isinstance(a, ast.Call) and isinstance(a.func, ast.Name) and a.func.id == "isinstance" and len(a.args) == 2 and fa.cfg.has_node(a.args[0]) and strip_sites(fa.term_of(a.args[0])) == p:
+            c0 = a.args[1]
+            got = [ast.unparse(e_) for e_ in c0.elts] if isinstance(c0, ast.Tuple) else [ast.unparse(c0)]
+        excluded |= set(got or [])
+    missing = {"list", "tuple", "dict"} - excluded
+    run.check(not missing, "C13.R1", fi, stmt_of(call), "lists, tuples and dictionaries do not take the text route", f"a {' / '.join(sorted(missing))} is rendered with str(), which renders its items with their own repr: a str-Enum column name inside a list (AsAwkwardArray([Col.PT])) becomes <Col.PT: 'jet_pt'> in the text - a SyntaxError, or code", "build ast.List / ast.Tuple / ast.Dict from as_ast(item)", key="containers rendered through str()")
+    # results: the expression inside the parsed module, or a container node built from as_ast of the items
     rt = strip_sites(fa.return_term())
-    ok_rt = rt[0] == "attr" and rt[2] == "value" and rt[1][0] == "index" and rt[1][2] == 0 and rt[1][1][0] == "attr" and rt[1][1][2] == "body"
-    run.check(ok_rt, "C13.R1", fi, fi.node, "as_ast returns the parsed expression node", f"as_ast returns {show(rt)[:120]}")
+
+    def parsed(x) -> bool:
+        return x[0] == "attr" and x[2] == "value" and x[1][0] == "index" and x[1][2] == 0 and x[1][1][0] == "attr" and x[1][1][2] == "body"
+
+    def items(x, src) -> bool:
+        return x[0] == "comp" and len(x[3]) == 1 and not x[3][0][1] and x[3][0][0] == src and x[2][0] == "app" and x[2][1][0] == "global" and x[2][1][1].endswith("as_ast") and x[2][2] == (("elem", src),)
+
+    def built(x) -> bool:
+        if x[0] != "new":
+            return False
+        d = dict(x[2])
+        if x[1] in ("List", "Tuple"):
+            return items(d.get("elts", ("top",)), p)
+        if x[1] == "Dict":
+            return items(d.get("keys", ("top",)), ("app", ("attr", p, "keys"), (), ())) and items(d.get("values", ("top",)), ("app", ("attr", p, "values"), (), ()))
+        return False
+
+    from ..terms import unphi_terms as _un
+
+    flat = []
+    def leaves(x):
+        if x[0] == "ifexp":
+            leaves(x[2]); leaves(x[3])
+        elif x[0] == "phi":
+            for y in x[1]:
+                leaves(y)
+        else:
+            flat.append(x)
+    leaves(rt)
+    ok_rt = bool(flat) and all(parsed(x) or built(x) for x in flat) and any(parsed(x) for x in flat)
+    run.check(ok_rt, "C13.R1", fi, fi.node, "as_ast returns the parsed expression node (or a container node built from as_ast of the items)", f"as_ast returns {show(rt)[:160]}")
 
 
 def _check_entry_points(run: Run, ctx, m) -> None:
